@@ -254,7 +254,8 @@ Proof.
       * apply Inv_change with (f0 := f0); [auto|congruence].
       * unfold change. rewrite gett_modt.
         destruct (Nat.eqb a a && _); cbn [active ts_set_active]; congruence.
-  - match goal with |- let '(_, _) := match crashed ?W with _ => _ end in _ =>
+  - destruct (match main (gett w aux) with Some (mt, m) => _ | None => false end); [split; assumption|].
+    match goal with |- let '(_, _) := match crashed ?W with _ => _ end in _ =>
       assert (HW : IK a w W) end.
     { it; [split; [apply Hsg|apply sub_segue_keeps; exact Hc]|].
       apply IK_guard; intros; split; [apply Hrc|apply sub_recur_keeps; exact Hc]. }
